@@ -275,123 +275,139 @@ def rule_clamp_zero(chk, prog):
             chk.ok("clamp-zero", inst)
         # returned elements
         rets = [n for n in pf.walk_no_nested(fn) if isinstance(n, ast.Return)]
-        if len(rets) != 1:
-            raise core.AnalysisError("%s: expected a single return" % qual)
-        rnode = g.node_of(rets[0])
-        rv = rets[0].value
-        elems = None
-        if isinstance(rv, ast.Tuple):
-            elems = [(e, None) for e in rv.elts]
-        elif isinstance(rv, ast.Name):
-            d = er.reaching_assign(fn, rv.id, rets[0])
-            if d is not None and isinstance(d.value, ast.Tuple):
-                elems = [(rv, k) for k in range(len(d.value.elts))]
-        if elems is None:
-            elems = [(rv, None)]
-        need = max(list(vidx) + list(didx)) + 1
-        if len(elems) < need:
-            raise core.AnalysisError("%s returns %d element(s), the rule table expects %d" % (qual, len(elems), need))
+        if not rets:
+            raise core.AnalysisError("%s: no return statement" % qual)
+        for ri, ret in enumerate(rets):
+            # every return path is judged on its own: an early return must have passed the zeroing stores too
+            rsuffix = "" if len(rets) == 1 else " (return %d of %d)" % (ri + 1, len(rets))
+            rnode = g.node_of(ret)
+            rv = ret.value
+            elems = None
+            if isinstance(rv, ast.Tuple):
+                elems = [(e, None) for e in rv.elts]
+            elif isinstance(rv, ast.Name):
+                d = er.reaching_assign(fn, rv.id, ret)
+                if d is not None and isinstance(d.value, ast.Tuple):
+                    elems = [(rv, k) for k in range(len(d.value.elts))]
+            if elems is None:
+                elems = [(rv, None)]
+            need = max(list(vidx) + list(didx)) + 1
+            if len(elems) < need:
+                raise core.AnalysisError("%s returns %d element(s), the rule table expects %d" % (qual, len(elems), need))
 
-        cls_ = pf.enclosing_class(fn)
+            cls_ = pf.enclosing_class(fn)
 
-        def resolve(call, mod=mod, fn=fn, cls_=cls_):
-            f = call.func
-            if isinstance(f, ast.Name) and f.id in mod.functions and mod.functions[f.id] is not fn:
-                return mod.functions[f.id], False
-            if isinstance(f, ast.Attribute) and isinstance(f.value, ast.Name) and f.value.id in ("self", "cls") \
-                    and cls_ is not None:
-                r = prog.find_method(mod, cls_, f.attr)
-                if r is not None and r[2] is not fn:
-                    return r[2], True
-            return None
+            def resolve(call, mod=mod, fn=fn, cls_=cls_):
+                f = call.func
+                if isinstance(f, ast.Name) and f.id in mod.functions and mod.functions[f.id] is not fn:
+                    return mod.functions[f.id], False
+                if isinstance(f, ast.Attribute) and isinstance(f.value, ast.Name) and f.value.id in ("self", "cls") \
+                        and cls_ is not None:
+                    r = prog.find_method(mod, cls_, f.attr)
+                    if r is not None and r[2] is not fn:
+                        return r[2], True
+                return None
 
-        def zeroed(root, elem):
-            zs = zero_store_nodes(g, fn, root, mname, elem, resolve)
-            if not zs:
-                for c in pf.walk_no_nested(fn):
-                    if isinstance(c, ast.Call):
-                        roots = {pf.base_name(a) for a in c.args} | {pf.base_name(k.value) for k in c.keywords}
-                        if root in roots and mname in roots:
-                            raise core.AnalysisError(
-                                "%s: `%s` and the mask `%s` are both handed to `%s`; the zeroing may be "
-                                "delegated to a helper this rule does not analyse" % (qual, root, mname, pf.src(c.func)))
-                return False, "no store `%s[%s] = 0` exists" % (root if elem is None else "%s[%d]" % (root, elem), mname)
-            for dn in dirty_nodes(g, fn, root, mname, elem):
-                ok, wit = g.must_pass(lambda node: node.id in zs, src=dn.id, dst=rnode.id)
-                if not ok:
-                    return False, "after `%s` (line %d) a path reaches the return without `%s[%s] = 0`" % (
-                        pf.src(dn.ast).splitlines()[0][:70], dn.ast.lineno, root, mname)
-            return True, "%d zeroing store(s)" % len(zs)
-
-        for k in didx:
-            e, elem = elems[k]
-            label = pf.src(e) if elem is None else "%s[%d]" % (pf.src(e), elem)
-            inst = "%s derivative #%d `%s` zeroed under %s" % (qual, k, label, mname)
-            if not isinstance(e, ast.Name):
-                raise core.AnalysisError("%s: returned derivative #%d is not a name: %s" % (qual, k, pf.src(e)))
-            ok, why = zeroed(e.id, elem)
-            if ok:
-                chk.ok("clamp-zero", inst, detail=why)
-            else:
-                chk.violation("clamp-zero", rel, qual, "derivative %s" % label, rets[0].lineno,
-                              "returned derivative `%s` is not zeroed under the low-density mask `%s = %s` on "
-                              "every path (%s); below the cutoff the value is clamped/constant, so a non-zero "
-                              "derivative is spurious" % (label, mname, pf.src(mst.value), why), instance=inst)
-        for k in vidx:
-            e, elem = elems[k]
-            inst = "%s value #%d `%s` clamped or zeroed" % (qual, k, pf.src(e))
-            # (i) zeroed: the value, or a factor of a pure product, is zeroed under the mask
-            factors = []
-
-            def collect(x):
-                if isinstance(x, ast.BinOp) and isinstance(x.op, ast.Mult):
-                    collect(x.left)
-                    collect(x.right)
-                elif isinstance(x, ast.BinOp) and isinstance(x.op, ast.Pow) and isinstance(x.right, ast.Constant) \
-                        and isinstance(x.right.value, (int, float)) and x.right.value > 0:
-                    collect(x.left)
-                elif isinstance(x, ast.Name):
-                    factors.append(x.id)
-            collect(e)
-            okz = [f for f in factors if zeroed(f, None)[0]]
-            if okz:
-                chk.ok("clamp-zero", inst, detail="factor `%s` zeroed under the mask" % okz[0])
-                continue
-            # (ii) clamped: a clamp of the density by the cutoff lies on every path to each statement
-            # that computes the value
-            def is_clamp(node):
-                st = node.ast
-                if node.kind != "stmt":
-                    return False
-                if isinstance(st, ast.Assign) and len(st.targets) == 1:
-                    t = st.targets[0]
-                    if isinstance(t, ast.Name) and t.id == dens:
-                        a = _clamp_call_args(st.value)
-                        return a is not None and cut in a
-                    if isinstance(t, ast.Subscript) and pf.base_name(t) == dens and pf.src(st.value) == cut \
-                            and _index_uses(t.slice, mname):
-                        return True
-                return False
-
-            names = [f for f in factors] or sorted(er.names_in(e))
-            bad = None
-            ndefs = 0
-            for nm in names:
-                for dn in dirty_nodes(g, fn, nm, mname, None):
-                    ndefs += 1
-                    ok, wit = g.must_pass(is_clamp, dst=dn.id)
+            def zeroed(root, elem):
+                zs = zero_store_nodes(g, fn, root, mname, elem, resolve)
+                if not zs:
+                    for c in pf.walk_no_nested(fn):
+                        if isinstance(c, ast.Call):
+                            roots = {pf.base_name(a) for a in c.args} | {pf.base_name(k.value) for k in c.keywords}
+                            if root in roots and mname in roots:
+                                raise core.AnalysisError(
+                                    "%s: `%s` and the mask `%s` are both handed to `%s`; the zeroing may be "
+                                    "delegated to a helper this rule does not analyse" % (qual, root, mname, pf.src(c.func)))
+                    return False, "no store `%s[%s] = 0` exists" % (root if elem is None else "%s[%d]" % (root, elem), mname)
+                for dn in dirty_nodes(g, fn, root, mname, elem):
+                    ok, wit = g.must_pass(lambda node: node.id in zs, src=dn.id, dst=rnode.id)
                     if not ok:
-                        bad = dn
-            if ndefs and bad is None:
-                chk.ok("clamp-zero", inst, detail="density `%s` clamped to `%s` before the value is computed" % (dens, cut))
-            else:
-                line = bad.ast.lineno if bad is not None else rets[0].lineno
-                chk.violation("clamp-zero", rel, qual, "value %s" % pf.src(e), line,
-                              "returned value `%s` is neither zeroed under the low-density mask nor computed from "
-                              "a density clamped to `%s`%s" % (
-                                  pf.src(e), cut,
-                                  "" if bad is None else " (`%s` is reached without the clamp)" % pf.src(bad.ast)[:70]),
-                              instance=inst)
+                        return False, "after `%s` (line %d) a path reaches the return without `%s[%s] = 0`" % (
+                            pf.src(dn.ast).splitlines()[0][:70], dn.ast.lineno, root, mname)
+                return True, "%d zeroing store(s)" % len(zs)
+
+            def unwrap(x):
+                # `a.item()` / `a.copy()` returned directly is the array `a` itself for this rule
+                while isinstance(x, ast.Call) and isinstance(x.func, ast.Attribute) and x.func.attr in TRANSPARENT \
+                        and not x.args and not x.keywords:
+                    x = x.func.value
+                return x
+
+            for k in didx:
+                e, elem = elems[k]
+                e = unwrap(e) if elem is None else e
+                label = pf.src(e) if elem is None else "%s[%d]" % (pf.src(e), elem)
+                inst = "%s derivative #%d `%s` zeroed under %s%s" % (qual, k, label, mname, rsuffix)
+                if elem is None and (er.is_zero(e) or (isinstance(e, ast.Call) and pf.call_name(e) in (
+                        "np.zeros_like", "numpy.zeros_like", "np.zeros", "numpy.zeros"))):
+                    chk.ok("clamp-zero", inst, detail="identically zero")
+                    continue
+                if not isinstance(e, ast.Name):
+                    raise core.AnalysisError("%s: returned derivative #%d is not a name: %s" % (qual, k, pf.src(e)))
+                ok, why = zeroed(e.id, elem)
+                if ok:
+                    chk.ok("clamp-zero", inst, detail=why)
+                else:
+                    chk.violation("clamp-zero", rel, qual, "derivative %s" % label, ret.lineno,
+                                  "returned derivative `%s` is not zeroed under the low-density mask `%s = %s` on "
+                                  "every path (%s); below the cutoff the value is clamped/constant, so a non-zero "
+                                  "derivative is spurious" % (label, mname, pf.src(mst.value), why), instance=inst)
+            for k in vidx:
+                e, elem = elems[k]
+                e = unwrap(e) if elem is None else e
+                inst = "%s value #%d `%s` clamped or zeroed%s" % (qual, k, pf.src(e), rsuffix)
+                # (i) zeroed: the value, or a factor of a pure product, is zeroed under the mask
+                factors = []
+
+                def collect(x):
+                    if isinstance(x, ast.BinOp) and isinstance(x.op, ast.Mult):
+                        collect(x.left)
+                        collect(x.right)
+                    elif isinstance(x, ast.BinOp) and isinstance(x.op, ast.Pow) and isinstance(x.right, ast.Constant) \
+                            and isinstance(x.right.value, (int, float)) and x.right.value > 0:
+                        collect(x.left)
+                    elif isinstance(x, ast.Name):
+                        factors.append(x.id)
+                collect(e)
+                okz = [f for f in factors if zeroed(f, None)[0]]
+                if okz:
+                    chk.ok("clamp-zero", inst, detail="factor `%s` zeroed under the mask" % okz[0])
+                    continue
+                # (ii) clamped: a clamp of the density by the cutoff lies on every path to each statement
+                # that computes the value
+                def is_clamp(node):
+                    st = node.ast
+                    if node.kind != "stmt":
+                        return False
+                    if isinstance(st, ast.Assign) and len(st.targets) == 1:
+                        t = st.targets[0]
+                        if isinstance(t, ast.Name) and t.id == dens:
+                            a = _clamp_call_args(st.value)
+                            return a is not None and cut in a
+                        if isinstance(t, ast.Subscript) and pf.base_name(t) == dens and pf.src(st.value) == cut \
+                                and _index_uses(t.slice, mname):
+                            return True
+                    return False
+
+                names = [f for f in factors] or sorted(er.names_in(e))
+                bad = None
+                ndefs = 0
+                for nm in names:
+                    for dn in dirty_nodes(g, fn, nm, mname, None):
+                        ndefs += 1
+                        ok, wit = g.must_pass(is_clamp, dst=dn.id)
+                        if not ok:
+                            bad = dn
+                if ndefs and bad is None:
+                    chk.ok("clamp-zero", inst, detail="density `%s` clamped to `%s` before the value is computed" % (dens, cut))
+                else:
+                    line = bad.ast.lineno if bad is not None else ret.lineno
+                    chk.violation("clamp-zero", rel, qual, "value %s" % pf.src(e), line,
+                                  "returned value `%s` is neither zeroed under the low-density mask nor computed from "
+                                  "a density clamped to `%s`%s" % (
+                                      pf.src(e), cut,
+                                      "" if bad is None else " (`%s` is reached without the clamp)" % pf.src(bad.ast)[:70]),
+                                  instance=inst)
 
 
 def rule_cutoff_pair(chk, prog):
@@ -966,6 +982,12 @@ def mutants(tree):
         Mutant("zero store moved before the last update", ST,
                "        dadrho -= 2 * grad_fac * sigma / (rho * rho * rho)\n    else:\n        dadsigma = np.zeros_like(ascale)\n    dadrho[cond] = 0\n    dadsigma[cond] = 0\n    dadtau[cond] = 0\n",
                "        dadrho[cond] = 0\n        dadrho -= 2 * grad_fac * sigma / (rho * rho * rho)\n    else:\n        dadsigma = np.zeros_like(ascale)\n        dadrho[cond] = 0\n    dadsigma[cond] = 0\n    dadtau[cond] = 0\n",
+               expect="clamp-zero"),
+        Mutant("mgga exponent: early return for array input leaves before the sub-cutoff derivative zeroing", ST,
+               "        dadsigma = np.zeros_like(ascale)\n    dadrho[cond] = 0\n    dadsigma[cond] = 0\n    dadtau[cond] = 0\n",
+               "        dadsigma = np.zeros_like(ascale)\n    dadsigma[cond] = 0\n    if isarray and grad_mul == 0:\n"
+               "        return ascale, dadrho, dadsigma, dadtau\n"
+               "    dadrho[cond] = 0\n    dadtau[cond] = 0\n",
                expect="clamp-zero"),
         Mutant("ds2: second derivative not zeroed", ST, "    res[0][cond] = 0.0\n    res[1][cond] = 0.0\n", "    res[0][cond] = 0.0\n",
                expect="clamp-zero"),
